@@ -3413,9 +3413,9 @@ impl GraphEngine {
         // list must not interleave or one of them is lost.
         let _list_guard = self.edge_list_lock(&key);
         let mut tensor = self.store.get(&key).unwrap_or_else(|_| TensorData::new());
-        let mut edges = Self::extract_edge_ids(&tensor);
         #[cfg(feature = "neumann_verif")]
         verif_rmw_window(&key);
+        let mut edges = Self::extract_edge_ids(&tensor);
         if !edges.contains(&edge_id) {
             edges.push(edge_id);
         }
